@@ -14,6 +14,7 @@ var sharedRules = map[string]map[string][]string{
 		"C06": {"PAIR.sem"},
 		"C07": {"PAIR.reserve"},
 		"C10": {"PROV.errmap"},
+		"C14": {"TABLE.classify"},
 		"C17": {"TABLE.decode"},
 	},
 	"C02": {
@@ -22,8 +23,10 @@ var sharedRules = map[string]map[string][]string{
 		"C08": {"RUN.restart"},
 		"C09": {"TABLE.request", "TOKEN.write"},
 		"C12": {"TABLE.dataeof"},
+		"C17": {"TABLE.prefix"},
 	},
 	"C03": {
+		"C01": {"GO.nowait"},
 		"C06": {"PAIR.sem", "WHO.builtin"},
 	},
 	"C04": {
@@ -36,11 +39,12 @@ var sharedRules = map[string]map[string][]string{
 		"C04": {"LOCK.atomicRMW", "TOKEN.register"},
 	},
 	"C06": {
-		"C01": {"PAIR.barrier"},
+		"C01": {"GO.nowait", "PAIR.barrier"},
 	},
 	"C07": {
 		"C01": {"PROV.batchflag"},
 		"C03": {"PAIR.barrier"},
+		"C08": {"TOKEN.stop"},
 	},
 	"C08": {
 		"C03": {"PAIR.barrier", "WHO.queue"},
@@ -72,6 +76,7 @@ var sharedRules = map[string]map[string][]string{
 	},
 	"C14": {
 		"C01": {"PAIR.invoke", "PAIR.join"},
+		"C04": {"PROV.settle"},
 		"C10": {"PROV.encoder"},
 		"C18": {"PAIR.ids"},
 	},
@@ -94,13 +99,14 @@ var sharedRules = map[string]map[string][]string{
 		"C06": {"PAIR.sem"},
 		"C10": {"PROV.encoder"},
 		"C14": {"EFFECT.pure", "PROV.errimmutable"},
+		"C17": {"TABLE.prefix"},
 	},
 	"C19": {
 		"C18": {"PAIR.ids", "PROV.body"},
 	},
 	"C20": {
 		"C01": {"PAIR.invoke", "PAIR.join", "PAIR.sem"},
-		"C03": {"PAIR.barrier"},
-		"C08": {"GO.class", "GO.lifetime", "TOKEN.stop"},
+		"C03": {"PAIR.barrier", "RUN.retain"},
+		"C08": {"GO.class", "GO.lifetime", "RUN.readerstops", "TOKEN.stop"},
 	},
 }
